@@ -201,6 +201,9 @@ scratch_pad * scratch_pad_new(mmd_engine * e, short format) {
 		for (int i = 0; i < e->citation_stack->size; ++i) {
 			f = stack_peek_index(e->citation_stack, i);
 
+			// Numbering starts over with each scratch pad
+			f->count = -1;
+
 			store_citation(p, f);
 		}
 
@@ -215,6 +218,9 @@ scratch_pad * scratch_pad_new(mmd_engine * e, short format) {
 		for (int i = 0; i < e->footnote_stack->size; ++i) {
 			f = stack_peek_index(e->footnote_stack, i);
 
+			// Numbering starts over with each scratch pad
+			f->count = -1;
+
 			store_footnote(p, f);
 		}
 
@@ -228,6 +234,9 @@ scratch_pad * scratch_pad_new(mmd_engine * e, short format) {
 		for (int i = 0; i < e->glossary_stack->size; ++i) {
 			f = stack_peek_index(e->glossary_stack, i);
 
+			// Numbering starts over with each scratch pad
+			f->count = -1;
+
 			store_glossary(p, f);
 		}
 
@@ -239,6 +248,9 @@ scratch_pad * scratch_pad_new(mmd_engine * e, short format) {
 
 		for (int i = 0; i < e->abbreviation_stack->size; ++i) {
 			f = stack_peek_index(e->abbreviation_stack, i);
+
+			// Numbering starts over with each scratch pad
+			f->count = -1;
 
 			store_abbreviation(p, f);
 		}
